@@ -70,13 +70,27 @@ def model_with(schema, home, text, seed):
     return m, inst
 
 
+def population_dump(m):
+    """every attribute value (except identifiers and references) of every Body / Value instance, as sorted text rows"""
+    rows = []
+    for kind, mc in sorted(m.metaclasses.items()):
+        if not (kind.startswith('ACT_') or kind.startswith('V_') or kind.startswith('E_')):
+            continue
+        # (Label holds the source text of the statement: the one thing keyword case may change)
+        names = [(n, t) for n, t in mc.attributes
+                 if t.upper() != 'UNIQUE_ID' and n not in mc.referential_attributes and n != 'Label']
+        for x in mc.select_many():
+            rows.append('%s(%s)' % (kind, ', '.join('%s=%r' % (n, getattr(x, n)) for n, _ in names)))
+    return sorted(rows)
+
+
 def one_item(plan, item):
     schema = plan['schema']
     text, tokpos = render(item['toks'], item.get('seed', 0), item.get('case', 'lower'), item.get('layout', 'mixed'), item.get('keep'))
     ev = {'src': item['body'], 'toks': item['toks'], 'err': '', 'errkind': '', 'real': [], 'tokpos': tokpos, 'nodes': [], 'text': text,
           'home': item['home'], 'gen': '', 'idem': 'skip', 'consistent': 'skip',
           'facts': {'stmts': [], 'vals': [], 'vars': [], 'ppairs': [], 'subtype_counts': [], 'rawkw': [], 'nlinks': 0},
-          'strict': 'yes' if item.get('strict') else 'no'}
+          'strict': 'yes' if item.get('strict') else 'no', 'casediff': []}
     try:
         with limit(60.0):
             m, inst = model_with(schema, item['home'], text, item.get('seed', 0))
@@ -89,6 +103,15 @@ def one_item(plan, item):
             if item.get('facts'):
                 import prebuildfacts
                 ev['facts'] = prebuildfacts.collect(m, inst)
+            if item.get('strict'):
+                # the same tokens at the same positions with every keyword in lower case: the population prebuilt from
+                # that text is what keyword case must not change
+                low, _ = render(item['toks'], item.get('seed', 0), 'lower', item.get('layout', 'mixed'), item.get('keep'))
+                m0, inst0 = model_with(schema, item['home'], low, item.get('seed', 0))
+                prebuild.prebuild_action(inst0)
+                d0, d1 = population_dump(m0), population_dump(m)
+                diff = [r for r in d1 if r not in d0][:3] + ['lower: ' + r for r in d0 if r not in d1][:3]
+                ev['casediff'] = diff
             gen = sourcegen.gen_text_action(inst)
             ev['gen'] = gen
             root = oal.parse(gen)
